@@ -244,6 +244,10 @@ class LockEngine:
             if a.get("k") == "func":
                 out.append(("f", a["name"]))
                 continue
+            lk = self._resolve_lock(fn, a, args)
+            if lk is not None:
+                out.append(("g", lk))
+                continue
             v = self.ev(fn, a, facts, args)
             if v is not None and a.get("k") != "const":
                 out.append(("c", v))
@@ -266,7 +270,7 @@ class LockEngine:
         for k, a in enumerate(args):
             if a is None or k >= len(fn.params):
                 norm.append(None)
-            elif a[0] == "f":
+            elif a[0] in ("f", "g"):
                 norm.append(a)
             elif fn.params[k]["type"] == "i1":
                 norm.append(("c", a[1] & 1))
@@ -376,10 +380,9 @@ class LockEngine:
             return [(ls, facts)]
         callee = inst.callee
         if callee in ACQ or callee in REL or callee in TRY:
-            a = inst.args[0]
-            if a.get("k") != "global" or a["name"] not in self.locks or a.get("off", 0) != 0:
-                raise AnalysisBroken("lock operation on an object that is not a named lock global at %s" % inst.loc())
-            lock = a["name"]
+            lock = self._resolve_lock(fn, inst.args[0], ctx.args)
+            if lock is None:
+                raise AnalysisBroken("lock operation on an object that is not a named lock global (directly or through a parameter) at %s" % inst.loc())
             if callee in TRY:
                 raise AnalysisBroken("trylock/timedlock at %s is not modelled" % inst.loc())
             self._record(ctx, inst, ls)
@@ -440,6 +443,30 @@ class LockEngine:
         for ex in sorted(sub.exits):
             out.append((ex, facts))
         return out
+
+    def _resolve_lock(self, fn, o, args, depth=0):
+        """operand -> name of the lock global it denotes: the global itself, or a pointer parameter bound to one in this context"""
+        k = o.get("k")
+        if k == "global":
+            return o["name"] if o["name"] in self.locks and o.get("off", 0) == 0 else None
+        if k == "arg":
+            a = args[o["i"]] if o["i"] < len(args) else None
+            return a[1] if a and a[0] == "g" else None
+        if k != "inst" or depth > 4:
+            return None
+        i = fn.insts[o["id"]]
+        if i.op == "bitcast":
+            return self._resolve_lock(fn, i["a"], args, depth + 1)
+        if i.op == "load":
+            p = i["ptr"]
+            if p.get("k") == "inst":
+                al = fn.insts[p["id"]]
+                if al.op == "alloca":
+                    kk = fn.param_index_of_alloca(al)
+                    if kk is not None:
+                        a = args[kk] if kk < len(args) else None
+                        return a[1] if a and a[0] == "g" else None
+        return None
 
     def _resolve_fptr(self, ctx, inst):
         fn = ctx.fn
@@ -504,7 +531,9 @@ class LockEngine:
 
 
 # ---------------------------------------------------------------------- contracts from comments
-CONTRACT_RE = re.compile(r"[Ss]hall\s+(only\s+)?be\s+called\s+with(.*?)(?:\.\s|\.$|\*/|$)", re.S)
+# "Shall only be called with X acquired" (requirement) or "Shall be called with none of ..." (prohibition);
+# conditional sentences ("Shall be called with param lock = false if ...") are not contracts on the lockset
+CONTRACT_RE = re.compile(r"[Ss]hall\s+(?:only\s+be\s+called\s+with(?!\s+param)|be\s+called\s+with(?=\s+none\s+of))(.*?)(?:\.\s|\.$|\*/|$)", re.S)
 
 
 def parse_contracts(repo, lock_names):
@@ -527,7 +556,7 @@ def parse_contracts(repo, lock_names):
             text = " ".join(cm.group(0).split())
             line = src.count("\n", 0, m.start(2)) + 1
             ent = out.setdefault(fname, {"require": {}, "forbid": [], "where": "%s:%d" % (os.path.relpath(path, repo), line), "text": text})
-            body = cm.group(2)
+            body = cm.group(1)
             if re.search(r"\bnone\s+of\b", body):
                 for ln in lock_names:
                     if ln.startswith("trackstate_") or ln in ("bidib_trains_rwlock", "bidib_boards_rwlock"):
